@@ -1,4 +1,4 @@
-CONSTANT MaxNow = 3
+CONSTANT MaxNow = 2
 CONSTANT MaxLevel = 5
 SPECIFICATION Spec
 CONSTRAINT Bound
